@@ -108,7 +108,7 @@ func searchOutcome(e *jmespath.Expression, data any) (out string, res any) {
 // C06
 
 var histExprs = []string{"sort(a)", "sort_by(objs, &k)", "reverse(a)", "to_array(a)", "a[1:3]", "a[::-1]", "a[*]", "a[?@ > `1`]", "`[3,1,2]`", "sort(`[3,1,2]`)", "merge(o, o2)", "group_by(objs, &to_string(k))",
-	"a[]", "objs[*].k", "max_by(objs, &k)", "a", "o", "keys(o)", "values(o)", "items(o)", "from_items(items(o))", "zip(a, a)", "map(&@, a)", "not_null(a)", "[a, a]", "{x: a, y: o}",
+	"a[]", "objs[*].k", "a[*]", "[a[*], a]", "s[*]", "a[*] | [0]", "`[1,null,2,null,3]`[*]", "a[?@]", "a[:3]", "a[1:]", "[a[1:], a]", "a[*][]", "flatten_me[]", "not_null(a[*])", "max_by(objs, &k)", "a", "o", "keys(o)", "values(o)", "items(o)", "from_items(items(o))", "zip(a, a)", "map(&@, a)", "not_null(a)", "[a, a]", "{x: a, y: o}",
 	"let $v = a in sort($v)", "a[0:2] | reverse(@)", "sort(a)[0]", "objs[?k > `1`] | sort_by(@, &k)", "join(',', s)", "sort(s)", "a || objs", "objs[].k", "o.*", "*", "avg(a)", "sum(a)", "a[:2]", "to_array(o)", "@", "$"}
 
 func judgeHistories(c *GenCtx) []Diff {
@@ -119,7 +119,11 @@ func judgeHistories(c *GenCtx) []Diff {
 		n := r.Intn(6)
 		var a, objs, s []string
 		for i := 0; i < n; i++ {
-			a = append(a, fmt.Sprint(r.Intn(9)))
+			if r.Chance(25) {
+				a = append(a, "null")
+			} else {
+				a = append(a, fmt.Sprint(r.Intn(9)))
+			}
 			objs = append(objs, fmt.Sprintf(`{"k":%d,"i":%d}`, r.Intn(3), i))
 			s = append(s, c.jstr(r.Pick(strPool)))
 		}
